@@ -385,6 +385,50 @@ Section ReadOne.
     intros H1 H2 H3 H4 H5. unfold read_one. rewrite H1, H2, H3, H4. cbn [r_path].
     rewrite <- andb_assoc, H5, andb_false_r. reflexivity.
   Qed.
+
+  Lemma read_one_from t r k acc e wdp :
+    alookup N.eqb (k_wd e) (pfw r) = Some wdp ->
+    is_moved_from (k_mask e) = true -> Emitter.is_ignored (k_mask e) = false ->
+    is_directory (k_mask e) && is_create (k_mask e) = false ->
+    read_one C t (r, k, acc) e =
+    Done ({| wfp := wfp r; pfw := pfw r;
+             mvf := aset N.eqb (k_cookie e) (rpath wdp (k_name e)) (mvf r); calls := calls r |},
+          k, acc ++ [mkraw e (rpath wdp (k_name e))]).
+  Proof.
+    intros H1 H2 H4 H5. unfold read_one. rewrite H1, H2, H4. cbn [r_path].
+    rewrite <- andb_assoc, H5, andb_false_r. reflexivity.
+  Qed.
+
+  (* the second half of a rename: the bookkeeping may change, the event is the same in every branch *)
+  Lemma read_one_to t r k acc e wdp :
+    alookup N.eqb (k_wd e) (pfw r) = Some wdp ->
+    is_moved_from (k_mask e) = false -> is_moved_to (k_mask e) = true ->
+    Emitter.is_ignored (k_mask e) = false ->
+    is_directory (k_mask e) && is_create (k_mask e) = false ->
+    exists r' k', read_one C t (r, k, acc) e = Done (r', k', acc ++ [mkraw e (join wdp (k_name e))]).
+  Proof.
+    intros H1 H2 H3 H4 H5. unfold read_one. rewrite H1, H2, H3, H4.
+    assert (H5' : forall b, b && is_directory (k_mask e) && is_create (k_mask e) = false).
+    { intros b. now rewrite <- andb_assoc, H5, andb_false_r. }
+    destruct (alookup N.eqb (k_cookie e) (mvf r)) as [msrc|].
+    - destruct (alookup beqb msrc (wfp r)) as [mwd|].
+      + cbn [r_path]. rewrite H5'. eexists; eexists; reflexivity.
+      + destruct (c_fix_movein C && c_recursive C && is_directory (k_mask e) && fisdir _ t).
+        * destruct (add_dirs C r k t _) as [r' k']. cbn [r_path]. rewrite H5'.
+          eexists; eexists; reflexivity.
+        * cbn [r_path]. rewrite H5'. eexists; eexists; reflexivity.
+    - destruct (c_fix_movein C && c_recursive C && is_directory (k_mask e) && fisdir _ t).
+      + destruct (add_dirs C r k t _) as [r' k']. cbn [r_path]. rewrite H5'.
+        eexists; eexists; reflexivity.
+      + cbn [r_path]. rewrite H5'. eexists; eexists; reflexivity.
+  Qed.
+
+  Lemma group_pair f t c :
+    nkind_of C f = KFrom c -> nkind_of C t = KTo c -> group_batch C [f; t] = [Pair f t].
+  Proof.
+    intros Hf Ht. unfold group_batch. cbn [group_go app]. rewrite Hf, Ht. cbn [pair_in_batch is_from_raw].
+    rewrite Hf, N.eqb_refl. reflexivity.
+  Qed.
 End ReadOne.
 
 (* ================================================================== 4. completeness, one operation at a time *)
@@ -534,4 +578,64 @@ Section Complete.
     - rewrite !knotify_miss by exact Hcov.
       destruct (watched_dir rec root (d ++ sep :: n)); [specialize (Hwc eq_refl); discriminate|].
       rewrite !knotify_miss by exact Hcovp. eexists; split; reflexivity.
+  Qed.
+
+  Ltac start_rename Happ :=
+    unfold delivers, deliver_one; rewrite Happ;
+    unfold contract; rewrite ?in_scope_child by assumption;
+    cbn [kernel_op]; rewrite ?dirname_child, ?basename_child by assumption;
+    match goal with
+    | |- context [ {| k_watches := k_watches k; k_next_wd := k_next_wd k; k_queue := k_queue k;
+                      k_next_cookie := ?c |} ] =>
+      change {| k_watches := k_watches k; k_next_wd := k_next_wd k; k_queue := k_queue k;
+                k_next_cookie := c |} with (kset k (k_queue k) c)
+    end; rewrite Hq.
+
+  (* rename of a file: inside the scope, out of it, into it; the target is absent or a file (replaced) *)
+  Lemma contract_rename_file dp np dq nq w' :
+    dp <> [] -> last_is_sep dp = false -> valid_name np = true ->
+    dq <> [] -> last_is_sep dq = false -> valid_name nq = true ->
+    cover C r k (w_fs w) dp -> cover C r k (w_fs w) dq ->
+    fisdir (dp ++ sep :: np) (w_fs w) = false -> fisdir (dq ++ sep :: nq) (w_fs w) = false ->
+    apply_op w (Rename (dp ++ sep :: np) (dq ++ sep :: nq)) = Some w' ->
+    delivers C full w k r (Rename (dp ++ sep :: np) (dq ++ sep :: nq)).
+  Proof.
+    intros Hdp Hsp Hnp Hdq Hsq Hnq Hcp Hcq Hfp Hfq Happ. start_rename Happ.
+    rewrite Hfp, Hfq. unfold cover in Hcp, Hcq. fold rec root in Hcp, Hcq |- *.
+    destruct (watched_dir rec root dp).
+    - destruct Hcp as [wp [Hw [Hm [Hp Hf]]]].
+      rewrite (knotify_hit _ _ _ _ _ _ _ _ wp Hw Hm) by reflexivity. rewrite kpush_nil.
+      destruct (watched_dir rec root dq).
+      + destruct Hcq as [wq [Hw' [Hm' [Hp' Hf']]]].
+        rewrite (knotify_hit _ _ _ _ _ _ _ _ wq Hw' Hm') by reflexivity.
+        rewrite kpush_one by (apply kraw_neq_mask; reflexivity).
+        cbn [k_queue kset read_batch].
+        rewrite (read_one_from C _ _ _ _ _ dp) by (first [exact Hp | reflexivity]).
+        match goal with |- context [read_one C ?t (?r1, ?k1, ?acc) ?e] =>
+          destruct (read_one_to C t r1 k1 acc e dq) as [r' [k' Hrd]];
+            [exact Hp' | reflexivity | reflexivity | reflexivity | reflexivity | rewrite Hrd] end.
+        cbn [k_name kev app rpath]. rewrite ?rpath_child by assumption.
+        rewrite (join_name dq nq) by assumption.
+        generalize (dp ++ sep :: np) (dq ++ sep :: nq). intros p q.
+        rewrite (group_pair C _ _ (k_next_cookie k)) by reflexivity.
+        eexists. split; [reflexivity|].
+        cbn. rewrite andb_false_r. reflexivity.
+      + rewrite knotify_miss by exact Hcq.
+        cbn [k_queue kset read_batch].
+        rewrite (read_one_from C _ _ _ _ _ dp) by (first [exact Hp | reflexivity]).
+        cbn [k_name kev app rpath]. rewrite ?rpath_child by assumption.
+        generalize (dp ++ sep :: np) (dq ++ sep :: nq). intros p q.
+        eexists. split; [reflexivity|]. destruct full; reflexivity.
+    - rewrite knotify_miss by exact Hcp.
+      destruct (watched_dir rec root dq).
+      + destruct Hcq as [wq [Hw' [Hm' [Hp' Hf']]]].
+        rewrite (knotify_hit _ _ _ _ _ _ _ _ wq Hw' Hm') by reflexivity. rewrite kpush_nil.
+        cbn [k_queue kset read_batch].
+        match goal with |- context [read_one C ?t (?r1, ?k1, ?acc) ?e] =>
+          destruct (read_one_to C t r1 k1 acc e dq) as [r' [k' Hrd]];
+            [exact Hp' | reflexivity | reflexivity | reflexivity | reflexivity | rewrite Hrd] end.
+        cbn [k_name kev app rpath]. rewrite (join_name dq nq) by assumption.
+        generalize (dp ++ sep :: np) (dq ++ sep :: nq). intros p q.
+        eexists. split; [reflexivity|]. destruct full; cbn; rewrite ?andb_false_r; reflexivity.
+      + rewrite knotify_miss by exact Hcq. eexists; split; reflexivity.
   Qed.
